@@ -1,512 +1,12 @@
-import GixModel.Basic.CommitDag
+import GixModel.Model.C47Walks
 import GixModel.Spec.C47
+import GixModel.Spec.C47Order
 /-
-C47 — models of the commit walks of gix-traverse:
-
-  `Simple` (gix-traverse/src/commit/simple.rs): `filtered()` (seen-set, predicate, tips),
-      `sorting()` (BreadthFirst / ByCommitTime newest|oldest / ByCommitTimeCutoff), `parents()`
-      (All / First with `queue_to_vecdeque`), `next_by_topology`, `next_by_commit_date`.
-  `Topo` (gix-traverse/src/commit/topo/{init,iter}.rs, with the `fix:` commits in /repo:
-      repeated tips, hidden tips, tie order of the two queues): `Builder::build`, the explore walk,
-      the in-degree walk, `expand_topo_walk`, `pop_commit`, the date / topo queues.
-
-Abstractions: the commit graph is `CG.Dag` (every parent exists); `gix_revwalk::PriorityQueue`
-is ANY `CG.PQ` in the theorems — the driver uses `heapPQ`, a transcription of
-`std::collections::BinaryHeap` (`push` = sift_up, `pop` = swap-remove + sift_down_to_bottom +
-sift_up) so that ties between equal commit times come out as in the real code; hash maps / sets
-are total maps wrapped in structures; every loop runs on fuel (`Res.fuel` when exhausted — never
-with the prescribed amounts), the walk's `Err(Missing…Unexpected)` is `Res.panic`.
+C47 — the driver of the walk models (`Model/C47Walks.lean`) and of the executable transcriptions
+of git's topological sort (`Spec.C47.gitTopoOrder`, `Spec.C47.gitTopoOrder2`).
 -/
 namespace GixModel.C47
 open GixModel GixModel.CG
-
-/-! ### `std::collections::BinaryHeap` as the driver's queue -/
-
-/-- `sift_up(start, pos)` with the element taken out of the hole -/
-def siftUp {K : Type} (le : K → K → Bool) (start : Nat) (elem : K × Nat) :
-    Nat → Array (K × Nat) → Nat → Array (K × Nat)
-  | 0, a, pos => a.setIfInBounds pos elem
-  | fuel + 1, a, pos =>
-    if pos > start then
-      let parent := (pos - 1) / 2
-      match a[parent]? with
-      | none => a.setIfInBounds pos elem
-      | some pe =>
-        if le elem.1 pe.1 then a.setIfInBounds pos elem
-        else siftUp le start elem fuel (a.setIfInBounds pos pe) parent
-    else a.setIfInBounds pos elem
-
-/-- `sift_down_to_bottom(0)`: move the hole down along the greater children (the right one on a
-tie), then sift the element up again -/
-def siftDownToBottom {K : Type} (le : K → K → Bool) (elem : K × Nat) :
-    Nat → Array (K × Nat) → Nat → Array (K × Nat)
-  | 0, a, pos => siftUp le 0 elem a.size a pos
-  | fuel + 1, a, pos =>
-    let endd := a.size
-    let child := 2 * pos + 1
-    if child + 2 ≤ endd then
-      match a[child]?, a[child + 1]? with
-      | some l, some r =>
-        let c := if le l.1 r.1 then child + 1 else child
-        let ce := if le l.1 r.1 then r else l
-        siftDownToBottom le elem fuel (a.setIfInBounds pos ce) c
-      | _, _ => siftUp le 0 elem a.size a pos
-    else if child + 1 = endd then
-      match a[child]? with
-      | some l => siftUp le 0 elem a.size (a.setIfInBounds pos l) child
-      | none => siftUp le 0 elem a.size a pos
-    else siftUp le 0 elem a.size a pos
-
-def heapPush {K : Type} (le : K → K → Bool) (k : K) (v : Nat) (a : Array (K × Nat)) : Array (K × Nat) :=
-  let old := a.size
-  siftUp le 0 (k, v) (old + 1) (a.push (k, v)) old
-
-def heapPop {K : Type} (le : K → K → Bool) (a : Array (K × Nat)) : Option ((K × Nat) × Array (K × Nat)) :=
-  match a.back? with
-  | none => none
-  | some last =>
-    let a' := a.pop
-    match a'[0]? with
-    | none => some (last, a')
-    | some top => some (top, siftDownToBottom le last a'.size a' 0)
-
-def heapPQ {K : Type} (le : K → K → Bool) : PQ K where
-  Q := Array (K × Nat)
-  empty := #[]
-  insert := fun k v s => heapPush le k v s
-  pop := fun s => heapPop le s
-  items := fun s => s.toList
-
-/-- `peek()`: the entry `pop()` would return -/
-def peekKey {K : Type} (q : PQ K) (s : q.Q) : Option K := (q.pop s).map (·.1.1)
-
-/-! ### sets and maps -/
-
-structure NatSet where
-  mem : Nat → Bool
-
-def NatSet.empty : NatSet := ⟨fun _ => false⟩
-def NatSet.insert (s : NatSet) (x : Nat) : NatSet := ⟨fun y => if y = x then true else s.mem y⟩
-
-/-! ### `Simple` -/
-
-inductive Sorting where
-  | breadthFirst
-  | byTime (oldestFirst : Bool)
-  | cutoff (oldestFirst : Bool) (seconds : Int)
-  deriving Repr, DecidableEq
-
-structure SimpleCfg where
-  pred : Nat → Bool
-  sorting : Sorting
-  firstParent : Bool
-
-/-- `to_queue_key`: `Ok(t)` for newest-first, `Err(Reverse(t))` for oldest-first; all keys of one
-walk are of the same kind, so the order is that of `t` resp. `-t` -/
-def timeKey (oldest : Bool) (t : Int) : Int := if oldest then -t else t
-
-def Sorting.oldest : Sorting → Bool
-  | .breadthFirst => false
-  | .byTime o => o
-  | .cutoff o _ => o
-
-def Sorting.cutoffTime : Sorting → Option Int
-  | .cutoff _ s => some s
-  | _ => none
-
-structure SState (Q : Type) where
-  next : List Nat
-  queue : Q
-  seen : NatSet
-  out : List Nat
-
-/-- `filtered()`: every tip is marked seen; the accepted new ones are queued -/
-def simpleTips (pred : Nat → Bool) : List Nat → NatSet → List Nat → NatSet × List Nat
-  | [], seen, next => (seen, next)
-  | t :: ts, seen, next =>
-    if seen.mem t then simpleTips pred ts seen next
-    else if pred t then simpleTips pred ts (seen.insert t) (next ++ [t])
-    else simpleTips pred ts (seen.insert t) next
-
-/-- `sorting()` for the time-based modes: drain `next` into the queue (tips older than the cut-off
-are dropped) -/
-def drainToQueue (g : Dag) (q : PQ Int) (oldest : Bool) (cut : Option Int) : List Nat → q.Q → q.Q
-  | [], qu => qu
-  | c :: cs, qu =>
-    match cut with
-    | some s =>
-      if g.time c ≥ s then drainToQueue g q oldest cut cs (q.insert (timeKey oldest (g.time c)) c qu)
-      else drainToQueue g q oldest cut cs qu
-    | none => drainToQueue g q oldest cut cs (q.insert (timeKey oldest (g.time c)) c qu)
-
-def simpleInit (g : Dag) (q : PQ Int) (cfg : SimpleCfg) (tips : List Nat) : SState q.Q :=
-  let r := simpleTips cfg.pred tips NatSet.empty []
-  -- `.sorting(…)`
-  let s1 : SState q.Q :=
-    match cfg.sorting with
-    | .breadthFirst => { next := r.2, queue := q.empty, seen := r.1, out := [] }
-    | .byTime o => { next := [], queue := drainToQueue g q o none r.2 q.empty, seen := r.1, out := [] }
-    | .cutoff o s => { next := [], queue := drainToQueue g q o (some s) r.2 q.empty, seen := r.1, out := [] }
-  -- `.parents(…)`: `queue_to_vecdeque` for `Parents::First`
-  if cfg.firstParent then
-    { s1 with next := s1.next ++ (q.items s1.queue).map (·.2), queue := q.empty }
-  else s1
-
-/-- the parents a step looks at -/
-def stepParents (g : Dag) (firstParent : Bool) (c : Nat) : List Nat :=
-  if firstParent then (g.parents c).take 1 else g.parents c
-
-/-- `next_by_topology`: the loop over the parents -/
-def pushParentsBfs (pred : Nat → Bool) : List Nat → NatSet → List Nat → NatSet × List Nat
-  | [], seen, next => (seen, next)
-  | p :: ps, seen, next =>
-    if seen.mem p then pushParentsBfs pred ps seen next
-    else if pred p then pushParentsBfs pred ps (seen.insert p) (next ++ [p])
-    else pushParentsBfs pred ps (seen.insert p) next
-
-/-- `next_by_commit_date`: the loop over the parents -/
-def pushParentsDate (g : Dag) (q : PQ Int) (pred : Nat → Bool) (oldest : Bool) (cut : Option Int) :
-    List Nat → NatSet → q.Q → NatSet × q.Q
-  | [], seen, qu => (seen, qu)
-  | p :: ps, seen, qu =>
-    if seen.mem p then pushParentsDate g q pred oldest cut ps seen qu
-    else if pred p then
-      match cut with
-      | some s =>
-        if g.time p < s then pushParentsDate g q pred oldest cut ps (seen.insert p) qu
-        else pushParentsDate g q pred oldest cut ps (seen.insert p) (q.insert (timeKey oldest (g.time p)) p qu)
-      | none => pushParentsDate g q pred oldest cut ps (seen.insert p) (q.insert (timeKey oldest (g.time p)) p qu)
-    else pushParentsDate g q pred oldest cut ps (seen.insert p) qu
-
-/-- does `next()` dispatch to `next_by_topology`? -/
-def SimpleCfg.byTopology (cfg : SimpleCfg) : Bool :=
-  cfg.firstParent || cfg.sorting == .breadthFirst
-
-def simpleLoop (g : Dag) (q : PQ Int) (cfg : SimpleCfg) : Nat → SState q.Q → Res (List Nat)
-  | 0, _ => .fuel
-  | fuel + 1, s =>
-    if cfg.byTopology then
-      match s.next with
-      | [] => .ok s.out
-      | c :: rest =>
-        let r := pushParentsBfs cfg.pred (stepParents g cfg.firstParent c) s.seen rest
-        simpleLoop g q cfg fuel { s with next := r.2, seen := r.1, out := s.out ++ [c] }
-    else
-      match q.pop s.queue with
-      | none => .ok s.out
-      | some ((_, c), qu) =>
-        let r := pushParentsDate g q cfg.pred cfg.sorting.oldest cfg.sorting.cutoffTime (g.parents c) s.seen qu
-        simpleLoop g q cfg fuel { s with queue := r.2, seen := r.1, out := s.out ++ [c] }
-
-/-- the whole iteration; `n` bounds the number of commits (fuel only) -/
-def simpleWalk (g : Dag) (q : PQ Int) (cfg : SimpleCfg) (n : Nat) (tips : List Nat) : Res (List Nat) :=
-  simpleLoop g q cfg (2 * n + tips.length + 1) (simpleInit g q cfg tips)
-
-/-! ### `Topo` -/
-
-structure WalkFlags where
-  seen : Bool := false
-  explored : Bool := false
-  inDegree : Bool := false
-  uninteresting : Bool := false
-  bottom : Bool := false
-  added : Bool := false
-  deriving Repr, DecidableEq
-
-def WalkFlags.or (a b : WalkFlags) : WalkFlags :=
-  { seen := a.seen || b.seen, explored := a.explored || b.explored, inDegree := a.inDegree || b.inDegree,
-    uninteresting := a.uninteresting || b.uninteresting, bottom := a.bottom || b.bottom,
-    added := a.added || b.added }
-
-def tipFlags : WalkFlags := { seen := true, explored := true, inDegree := true }
-def endFlags : WalkFlags := { seen := true, explored := true, inDegree := true, uninteresting := true, bottom := true }
-def flagU : WalkFlags := { uninteresting := true }
-def flagUSeen : WalkFlags := { uninteresting := true, seen := true }
-def flagSeen : WalkFlags := { seen := true }
-
-/-- `IdMap<WalkFlags>` -/
-structure StateMap where
-  get : Nat → Option WalkFlags
-
-def StateMap.empty : StateMap := ⟨fun _ => none⟩
-def StateMap.set (m : StateMap) (i : Nat) (f : WalkFlags) : StateMap := ⟨fun j => if j = i then some f else m.get j⟩
-/-- `entry(id).and_modify(|s| *s |= pass).or_insert(ins)` -/
-def StateMap.orInsert (m : StateMap) (i : Nat) (pass ins : WalkFlags) : StateMap :=
-  match m.get i with
-  | some f => m.set i (f.or pass)
-  | none => m.set i ins
-
-/-- `IdMap<i32>` -/
-structure DegMap where
-  get : Nat → Option Int
-
-def DegMap.empty : DegMap := ⟨fun _ => none⟩
-def DegMap.set (m : DegMap) (i : Nat) (d : Int) : DegMap := ⟨fun j => if j = i then some d else m.get j⟩
-
-/-- `(generation, commit_time)`, compared lexicographically -/
-abbrev GenTime := Nat × Int
-
-def GenTime.le (a b : GenTime) : Bool := decide (a.1 < b.1) || (a.1 == b.1 && decide (a.2 ≤ b.2))
-
-def genTime (g : Dag) (x : Nat) : GenTime := (g.gen x, g.time x)
-
-/-- key of the date-ordered queue: commit time, then insertion order (earlier first) -/
-abbrev DateKey := Int × Nat
-
-def DateKey.le (a b : DateKey) : Bool := decide (a.1 < b.1) || (a.1 == b.1 && decide (b.2 ≤ a.2))
-
-inductive TopoSorting where
-  | dateOrder
-  | topoOrder
-  deriving Repr, DecidableEq
-
-structure TState (QG QD : Type) where
-  indeg : DegMap
-  states : StateMap
-  explore : QG
-  indegQ : QG
-  /-- `Queue::Date`: the heap and the insertion counter -/
-  dateQ : QD
-  dateCtr : Nat
-  /-- `Queue::Topo`: the stack, head = `last()` -/
-  stack : List (Int × Nat)
-  minGen : Nat
-
-structure TopoCfg where
-  sorting : TopoSorting
-  firstParent : Bool
-
-/-- everything a topo walk is parameterised by -/
-structure TopoEnv where
-  g : Dag
-  qg : PQ GenTime
-  qd : PQ DateKey
-  cfg : TopoCfg
-
-abbrev TS (E : TopoEnv) := TState E.qg.Q E.qd.Q
-
-/-- `collect_parents(id)` (only the first parent for `Parents::First`) -/
-def walkParents (E : TopoEnv) (c : Nat) : List Nat :=
-  if E.cfg.firstParent then (E.g.parents c).take 1 else E.g.parents c
-
-/-- `for id in ids { states.entry(id).and_modify(|s| *s |= pass).or_insert(ins) }` -/
-def orInsertAll (pass ins : WalkFlags) : List Nat → StateMap → StateMap
-  | [], m => m
-  | x :: xs, m => orInsertAll pass ins xs (m.orInsert x pass ins)
-
-/-- the uninteresting branch of `process_parents`: all grandparents become uninteresting
-(`for (id, _) in parents { for (id, _) in collect_all_parents(id) { … } }`) -/
-def markGrandAll (g : Dag) (ps : List Nat) (m : StateMap) : StateMap :=
-  orInsertAll flagU flagUSeen (ps.flatMap g.parents) m
-
-/-- `for (id, _) in parents { states.entry(*id).and_modify(|s| *s |= pass).or_insert(insert) }` -/
-def passToParents (pass ins : WalkFlags) (ps : List Nat) (m : StateMap) : StateMap :=
-  orInsertAll pass ins ps m
-
-/-- `process_parents(id, parents)`; `none` = `MissingStateUnexpected` -/
-def processParents (g : Dag) (c : Nat) (parents : List Nat) (m : StateMap) : Option StateMap :=
-  match m.get c with
-  | none => none
-  | some st =>
-    if st.added then some m
-    else
-      let m1 := m.set c { st with added := true }
-      if st.uninteresting then
-        some (passToParents flagU flagU parents (markGrandAll g parents m1))
-      else some (passToParents {} flagSeen parents m1)
-
-/-- the loop of `explore_walk_step` over the parents: queue the ones not yet `Explored` -/
-def exploreParents (E : TopoEnv) : List Nat → StateMap → E.qg.Q → Option (StateMap × E.qg.Q)
-  | [], m, qu => some (m, qu)
-  | p :: ps, m, qu =>
-    match m.get p with
-    | none => none
-    | some st =>
-      if st.explored then exploreParents E ps m qu
-      else exploreParents E ps (m.set p { st with explored := true }) (E.qg.insert (genTime E.g p) p qu)
-
-/-- `explore_to_depth(cutoff)` -/
-def exploreToDepth (E : TopoEnv) (cutoff : Nat) : Nat → TS E → Res (TS E)
-  | 0, _ => .fuel
-  | fuel + 1, s =>
-    match E.qg.pop s.explore with
-    | none => .ok s
-    | some ((k, c), qu) =>
-      if k.1 ≥ cutoff then
-        let parents := walkParents E c
-        match processParents E.g c parents s.states with
-        | none => .panic
-        | some m1 =>
-          match exploreParents E parents m1 qu with
-          | none => .panic
-          | some (m2, qu2) => exploreToDepth E cutoff fuel { s with states := m2, explore := qu2 }
-      else .ok s
-
-/-- `indegrees.entry(id).and_modify(|e| *e += 1).or_insert(2)` -/
-def bump (d : Option Int) : Int :=
-  match d with
-  | some e => e + 1
-  | none => 2
-
-/-- the loop of `indegree_walk_step` over the parents -/
-def indegreeParents (E : TopoEnv) : List Nat → DegMap → StateMap → E.qg.Q → Option (DegMap × StateMap × E.qg.Q)
-  | [], d, m, qu => some (d, m, qu)
-  | p :: ps, d, m, qu =>
-    let d1 := d.set p (bump (d.get p))
-    match m.get p with
-    | none => none
-    | some st =>
-      if st.inDegree then indegreeParents E ps d1 m qu
-      else indegreeParents E ps d1 (m.set p { st with inDegree := true }) (E.qg.insert (genTime E.g p) p qu)
-
-/-- `compute_indegrees_to_depth(cutoff)`; `n` = fuel for each nested explore walk -/
-def computeIndegrees (E : TopoEnv) (n : Nat) (cutoff : Nat) : Nat → TS E → Res (TS E)
-  | 0, _ => .fuel
-  | fuel + 1, s =>
-    match E.qg.pop s.indegQ with
-    | none => .ok s
-    | some ((k, c), qu) =>
-      if k.1 ≥ cutoff then
-        match exploreToDepth E k.1 n { s with indegQ := qu } with
-        | .ok s1 =>
-          match indegreeParents E (walkParents E c) s1.indeg s1.states s1.indegQ with
-          | none => .panic
-          | some (d, m, qu2) => computeIndegrees E n cutoff fuel { s1 with indeg := d, states := m, indegQ := qu2 }
-        | .panic => .panic
-        | .fuel => .fuel
-      else .ok s
-
-/-- `topo_queue.push(time, info)` -/
-def tqPush (E : TopoEnv) (s : TS E) (time : Int) (c : Nat) : TS E :=
-  match E.cfg.sorting with
-  | .dateOrder => { s with dateQ := E.qd.insert (time, s.dateCtr) c s.dateQ, dateCtr := s.dateCtr + 1 }
-  | .topoOrder => { s with stack := (time, c) :: s.stack }
-
-/-- `topo_queue.pop()` -/
-def tqPop (E : TopoEnv) (s : TS E) : Option (Nat × TS E) :=
-  match E.cfg.sorting with
-  | .dateOrder =>
-    match E.qd.pop s.dateQ with
-    | none => none
-    | some ((_, c), qu) => some (c, { s with dateQ := qu })
-  | .topoOrder =>
-    match s.stack with
-    | [] => none
-    | (_, c) :: rest => some (c, { s with stack := rest })
-
-/-- the loop of `expand_topo_walk` over the parents -/
-def expandParents (E : TopoEnv) (n : Nat) : List Nat → TS E → Res (TS E)
-  | [], s => .ok s
-  | p :: ps, s =>
-    match s.states.get p with
-    | none => .panic
-    | some pst =>
-      if pst.uninteresting then expandParents E n ps s
-      else
-        let r : Res (TS E) :=
-          if E.g.gen p < s.minGen then
-            computeIndegrees E n (E.g.gen p) n { s with minGen := E.g.gen p }
-          else .ok s
-        match r with
-        | .ok s1 =>
-          match s1.indeg.get p with
-          | none => .panic
-          | some i =>
-            let s2 : TS E := { s1 with indeg := s1.indeg.set p (i - 1) }
-            if i - 1 = 1 then expandParents E n ps (tqPush E s2 (E.g.time p) p)
-            else expandParents E n ps s2
-        | .panic => .panic
-        | .fuel => .fuel
-
-/-- `pop_commit()` + the iterator's loop -/
-def topoLoop (E : TopoEnv) (n : Nat) : Nat → TS E → List Nat → Res (List Nat)
-  | 0, _, _ => .fuel
-  | fuel + 1, s, out =>
-    match tqPop E s with
-    | none => .ok out
-    | some (c, s1) =>
-      match s1.indeg.get c with
-      | none => .panic
-      | some _ =>
-        let s2 : TS E := { s1 with indeg := s1.indeg.set c 0 }
-        let parents := walkParents E c
-        match processParents E.g c parents s2.states with
-        | none => .panic
-        | some m =>
-          match expandParents E n parents { s2 with states := m } with
-          | .ok s3 => topoLoop E n fuel s3 (out ++ [c])
-          | .panic => .panic
-          | .fuel => .fuel
-
-/-- the first loop of `build()`: register tips and ends -/
-def registerAll (E : TopoEnv) : List (Nat × WalkFlags) → TS E → TS E
-  | [], s => s
-  | (c, fl) :: rest, s =>
-    match s.states.get c with
-    | some st => registerAll E rest { s with states := s.states.set c (st.or fl) }
-    | none =>
-      let gt := genTime E.g c
-      registerAll E rest
-        { s with states := s.states.set c fl, indeg := s.indeg.set c 1,
-                 minGen := if gt.1 < s.minGen then gt.1 else s.minGen,
-                 explore := E.qg.insert gt c s.explore, indegQ := E.qg.insert gt c s.indegQ }
-
-/-- "parents of the ends must also be marked uninteresting" -/
-def markEndParents (g : Dag) (ends : List Nat) (m : StateMap) : StateMap :=
-  orInsertAll flagU flagUSeen (ends.flatMap g.parents) m
-
-/-- the last loop of `build()`: queue the tips nothing else points at -/
-def queueTips (E : TopoEnv) : List Nat → NatSet → TS E → Option (TS E)
-  | [], _, s => some s
-  | t :: ts, queued, s =>
-    match s.indeg.get t with
-    | none => none
-    | some i =>
-      if i ≠ 1 then queueTips E ts queued s
-      else
-        let hidden := match s.states.get t with
-          | some st => st.uninteresting
-          | none => false
-        if hidden || queued.mem t then queueTips E ts queued s
-        else queueTips E ts (queued.insert t) (tqPush E s (E.g.time t) t)
-
-/-- stable insertion sort ascending by time (`sort_by(|a, b| a.0.cmp(&b.0))`) -/
-def insertByTime (e : Int × Nat) : List (Int × Nat) → List (Int × Nat)
-  | [] => [e]
-  | x :: xs => if x.1 ≤ e.1 then x :: insertByTime e xs else e :: x :: xs
-
-def sortByTime (l : List (Int × Nat)) : List (Int × Nat) :=
-  l.foldl (fun acc e => insertByTime e acc) []
-
-/-- `GENERATION_NUMBER_INFINITY` -/
-def genInfinity : Nat := 4294967295
-
-def topoBuild (E : TopoEnv) (n : Nat) (tips ends : List Nat) : Res (TS E) :=
-  let s0 : TS E :=
-    { indeg := DegMap.empty, states := StateMap.empty, explore := E.qg.empty, indegQ := E.qg.empty,
-      dateQ := E.qd.empty, dateCtr := 0, stack := [], minGen := genInfinity }
-  let s1 := registerAll E (tips.map (fun t => (t, tipFlags)) ++ ends.map (fun e => (e, endFlags))) s0
-  let s2 : TS E := { s1 with states := markEndParents E.g ends s1.states }
-  match computeIndegrees E n s2.minGen n s2 with
-  | .ok s3 =>
-    match queueTips E tips NatSet.empty s3 with
-    | none => .panic
-    | some s4 =>
-      -- `initial_sort()`: the stack's vector (bottom first) is reversed, then stably sorted by
-      -- time; our list has the top first
-      .ok { s4 with stack := (sortByTime s4.stack).reverse }
-  | .panic => .panic
-  | .fuel => .fuel
-
-/-- the whole iteration; `n` bounds the number of commits (fuel only: every queue hands out each
-commit at most once, so `n + 1` iterations suffice for every loop) -/
-def topoWalk (E : TopoEnv) (n : Nat) (tips ends : List Nat) : Res (List Nat) :=
-  match topoBuild E (n + 1) tips ends with
-  | .ok s => topoLoop E (n + 1) (n + 1) s []
-  | .panic => .panic
-  | .fuel => .fuel
-
-
 
 /-! ### driver -/
 
@@ -606,6 +106,22 @@ def handle? : List String → Option String
         match mode with
         | "topo-date" => some (showSeq (.ok (Spec.C47.gitTopoOrder g n tips hidden true)))
         | "topo-topo" => some (showSeq (.ok (Spec.C47.gitTopoOrder g n tips hidden false)))
+        | _ => none
+    | _ => none
+  | "gitorder2" :: _cg :: mode :: n :: rest => do
+    -- `Spec.C47.gitTopoOrder2` (Kahn over the selection, the form the order theorems are about)
+    let n ← n.toNat?
+    let (rows, rest) ← takeRows n rest
+    match rest with
+    | [tips, hidden, _cut] =>
+      let tips ← parseIdxList tips
+      let hidden ← parseIdxList hidden
+      if tips.any (· ≥ n) || hidden.any (· ≥ n) then none
+      else
+        let g := dagOfRows rows.toArray
+        match mode with
+        | "topo-date" => some (showSeq (.ok (Spec.C47.gitTopoOrder2 g n tips hidden true)))
+        | "topo-topo" => some (showSeq (.ok (Spec.C47.gitTopoOrder2 g n tips hidden false)))
         | _ => none
     | _ => none
   | _ => none
